@@ -1,14 +1,15 @@
 #!/bin/bash
-# tools/seedregress.sh [glob]: every kept seeded change must still be caught by the checks recorded in its meta.json
+# tools/seedregress.sh [glob ...]: every kept seeded change must still be caught by the checks recorded in its meta.json
 # (one scratch worktree outside /repo and /verif, reused so that the alternate build directory stays warm; removed at the end)
 set -u
-ROOT="$(cd "$(dirname "$0")/.." && pwd)"; PAT="${1:-*}"
-WT=/tmp/zvt-seedregress-wt
+ROOT="$(cd "$(dirname "$0")/.." && pwd)"; PATS=("$@"); [ ${#PATS[@]} -eq 0 ] && PATS=("*")
+WT="${SEEDREGRESS_WT:-/tmp/zvt-seedregress-wt}"
 git -C /repo worktree remove --force "$WT" 2>/dev/null; rm -rf "$WT"
 git -C /repo worktree add --detach "$WT" HEAD >/dev/null 2>&1 || { echo "cannot create worktree"; exit 2; }
 trap 'git -C /repo worktree remove --force "$WT" 2>/dev/null; rm -rf "$WT" "$ROOT/.build/alt-"*' EXIT
 export VERIF_REPO="$WT"; export VERIF_ROOT="$ROOT/.build/seedregress-out"; mkdir -p "$VERIF_ROOT"; cp "$ROOT/known_findings.json" "$VERIF_ROOT/"
 miss=0; n=0
+for PAT in "${PATS[@]}"; do
 for d in $ROOT/seeded/$PAT; do
   [ -f "$d/patch.diff" ] || continue
   name="$(basename "$d")"
@@ -20,6 +21,7 @@ for d in $ROOT/seeded/$PAT; do
     out="$("$ROOT/check" "$c" --tier quick 2>&1)"; rc=$?
     if [ $rc -eq 1 ]; then echo "[$name] $c caught"; else echo "[$name] $c NOT CAUGHT (rc=$rc) $(echo "$out" | tail -1 | cut -c1-160)"; miss=$((miss+1)); fi
   done
+done
 done
 echo "seedregress: $n check runs, $miss not caught"
 [ $miss -eq 0 ]
